@@ -1,0 +1,34 @@
+//go:build verif
+
+// Contracts for govc (contract-based deductive verification, see /verif/DESIGN.md).
+// Comment-only file: it adds no code and is compiled only with -tags verif.
+
+package logql_transpiler_v2
+
+//@ func fastFill [C08,C12]
+//@   requires len(v) >= 1
+//@   modifies elems(v)
+//@   ensures filled: forall i int :: 0 <= i && i < len(v) ==> v[i] == val
+//@   loop 1:
+//@     invariant 1 <= l
+//@     invariant forall i int :: 0 <= i && i < l && i < len(v) ==> v[i] == val
+//@     modifies elems(v)
+//@     decreases len(v) - l
+
+// The re-bucketing goroutine of FixPeriodPlanner runs without a recover: a
+// run-time panic here ends the process. Every division, allocation and slice
+// expression must be safe for all entries, given a positive step and range.
+//@ func (*FixPeriodPlanner).Process$2 [C08,C12]
+//@   requires ctx.Step > 0 && m.Duration > 0 && _from <= _to
+//@   requires isnil(values)
+//@   loop 1:
+//@     invariant isnil(values) || (len(values) >= 1 && fresh(values))
+//@     modifies values, fingerprint, labels, allocated
+//@   loop 2:
+//@     invariant isnil(values) || (len(values) >= 1 && fresh(values))
+//@     modifies values, fingerprint, labels, allocated
+
+//@ func (*FixPeriodPlanner).Process$1 [C08]
+//@   flag inline-only
+//@   loop 1:
+//@     modifies nothing
